@@ -286,6 +286,8 @@ impl Scenario for DynSum {
                 op_log("(warm start: KeepChild, Observe, Stabilise)".into());
             }
             let mut stale_outside_done = false;
+            // (only in the plain warm variant, to keep the other variants' trees as they were)
+            let stale_outside_allowed = self.warm && !self.warm_deps && !self.with_bind;
             for _ in 0..self.len {
                 #[derive(Debug, Clone)]
                 enum A {
@@ -342,7 +344,7 @@ impl Scenario for DynSum {
                 if !w.sh.want_invalidate.get() && !w.sh.did_invalidate.get() {
                     acts.push(A::AskInvalidate);
                 }
-                if !stale_outside_done && !w.invalidated && w.obs.is_some() && w.obs_in_use {
+                if stale_outside_allowed && !stale_outside_done && !w.invalidated && w.obs.is_some() && w.obs_in_use {
                     // make_stale() called between two stabilises, on an expert node that is needed right now
                     acts.push(A::StaleOutside);
                 }
